@@ -82,6 +82,27 @@ def _py_rejections(fn_node) -> list[list[str]]:
         for c in ast.iter_child_nodes(n):
             parents[c] = n
     a = fn_node.args
+    # explaining variables: a local bound exactly once, by a plain assignment, stands for the names of its defining expression
+    # (`insert_end = index + cmd; if insert_end > delta_length` rejects on index, cmd and delta_length)
+    bind_count: dict[str, int] = {}
+    single: dict[str, set[str]] = {}
+    for x in ast.walk(fn_node):
+        if isinstance(x, ast.Name) and isinstance(x.ctx, ast.Store):
+            bind_count[x.id] = bind_count.get(x.id, 0) + 1
+    for x in ast.walk(fn_node):
+        if isinstance(x, ast.Assign) and len(x.targets) == 1 and isinstance(x.targets[0], ast.Name) and bind_count.get(x.targets[0].id) == 1 \
+                and not any(isinstance(y, (ast.Call, ast.Subscript, ast.Attribute, ast.Await, ast.Yield)) for y in ast.walk(x.value)):
+            single[x.targets[0].id] = {y.id for y in ast.walk(x.value) if isinstance(y, ast.Name)}
+
+    def expand(names: set[str]) -> set[str]:
+        for _ in range(8):
+            nxt = set()
+            for nm in names:
+                nxt |= single.get(nm, {nm}) or {nm}
+            if nxt == names:
+                break
+            names = nxt
+        return names
     out = []
     for r in ast.walk(fn_node):
         if not isinstance(r, ast.Raise):
@@ -103,6 +124,7 @@ def _py_rejections(fn_node) -> list[list[str]]:
             n = p
         if subj is None:
             subj = {"<unconditional>"}
+        subj = expand(set(subj))
         # builtins and module-level helpers are not subjects
         subj = {x for x in subj if not x[0].isupper() and x not in ("int", "len", "isinstance", "bytes", "str", "ord", "type", "min", "max")}
         out.append(sorted(subj))
